@@ -549,6 +549,8 @@ class Builder:
             return G.Val(G.STOP)
         if kind == 'custom':
             return self.custom_spec(r)
+        if kind == 'flex':
+            return collab.FlexSpec(r[1], bool(r[2]))
         if kind == 'compose':
             # ['compose', first callable recipe, second callable recipe] -> x -> second(first(x))
             f1, f2 = self.callable_(r[1]), self.callable_(r[2])
